@@ -17,9 +17,9 @@
    part carries no burst.  Values: nope/batch/shadow are 0/1 integers.       *)
 EXTENDS TrxdPdu
 
-\* burst length by the 4 modulation bits (0b00xx GMSK, 0b010x 8-PSK, 0b0110
+\* burst length by the 4 modulation bits (0b00xx GMSK, 0b010x 8-PSK, 0b011x
 \* GMSK access burst, 0b100x 16QAM, 0b101x 32QAM, 0b110x AQPSK); others: unassigned
-ModLen(mod) == CASE mod \in 0..3 -> GB [] mod \in {4, 5} -> 3 * GB [] mod = 6 -> GB
+ModLen(mod) == CASE mod \in 0..3 -> GB [] mod \in {4, 5} -> 3 * GB [] mod \in {6, 7} -> GB
                  [] mod \in {8, 9} -> 4 * GB [] mod \in {10, 11} -> 5 * GB
                  [] mod \in {12, 13} -> 2 * GB [] OTHER -> -1
 MtsV(v) == v.nope * 128 + v.mod * 8 + v.tsc
